@@ -52,6 +52,7 @@ type Contract struct {
 type Interference struct {
 	Callees []string
 	Lock    string
+	Havoc   []string // heap locations (modifies-item syntax) that other threads may also change, besides the ghost maps
 	Pred    Clause
 }
 
@@ -383,6 +384,13 @@ func (db *ContractDB) parseContractText(file, text, defaultPkg string) error {
 			}
 			head, pred := c.rest[:i], strings.TrimSpace(c.rest[i+3:])
 			itf := Interference{}
+			// interfere A, B [unless held EXPR] [havoc ITEMS] : PRED
+			if j := strings.Index(head, " havoc "); j >= 0 {
+				for _, it := range strings.Split(head[j+7:], ",") {
+					itf.Havoc = append(itf.Havoc, strings.TrimSpace(it))
+				}
+				head = head[:j]
+			}
 			if j := strings.Index(head, " unless held "); j >= 0 {
 				itf.Lock = strings.TrimSpace(head[j+13:])
 				head = head[:j]
